@@ -414,7 +414,7 @@ class WiredNetworkInterface(NetworkInterface, ABC):
         if self.enabled:
             return True
 
-        if not self._connected_node:
+        if not self._connected_node or self.uuid not in self._connected_node.network_interfaces:
             _LOGGER.warning(f"Interface {self} cannot be enabled as it is not connected to a Node")
             return False
 
@@ -2194,9 +2194,9 @@ class Node(SimComponent, ABC):
         :param network_interface: The NIC to connect.
         :raise NetworkError: If the NIC is already connected.
         """
-        if network_interface.uuid not in self.network_interface:
+        if network_interface.uuid not in self.network_interfaces:
             self.network_interfaces[network_interface.uuid] = network_interface
-            new_nic_num = len(self.network_interfaces)
+            new_nic_num = max(self.network_interface, default=0) + 1
             self.network_interface[new_nic_num] = network_interface
             network_interface._connected_node = self
             network_interface.port_num = new_nic_num
@@ -2209,7 +2209,7 @@ class Node(SimComponent, ABC):
             self._nic_request_manager.add_request(new_nic_num, RequestType(func=network_interface._request_manager))
         else:
             msg = f"Cannot connect NIC {network_interface} as it is already connected"
-            self.sys_log.logger.warning(msg)
+            self.sys_log.warning(msg)
             raise NetworkError(msg)
 
     def disconnect_nic(self, network_interface: Union[NetworkInterface, str]):
@@ -2221,7 +2221,7 @@ class Node(SimComponent, ABC):
         """
         if isinstance(network_interface, str):
             network_interface = self.network_interfaces.get(network_interface)
-        if network_interface or network_interface.uuid in self.network_interfaces:
+        if network_interface is not None and network_interface.uuid in self.network_interfaces:
             network_interface_num = -1
             for port, _network_interface in self.network_interface.items():
                 if network_interface == _network_interface:
@@ -2236,7 +2236,7 @@ class Node(SimComponent, ABC):
                 self._nic_request_manager.remove_request(network_interface_num)
         else:
             msg = f"Cannot disconnect Network Interface {network_interface} as it is not connected"
-            self.sys_log.logger.warning(msg)
+            self.sys_log.warning(msg)
             raise NetworkError(msg)
 
     def ping(self, target_ip_address: Union[IPv4Address, str], pings: int = 4) -> bool:
